@@ -441,7 +441,17 @@ func (p *Program) runPipeline(cfg *SolverCfg, tasks []Task) ([]*Oblig, []*Unit) 
 			r = solveFile(c, j.key, j.zf, j.cf)
 		}
 		if c.Confirm && r.status == "unsat" && j.inst.Expect == "" {
-			satBy, satOut, confirmed := "", "", false
+			// thorough tier: the other two solvers are asked at the same time; the first `unsat`
+			// confirms (the other run is cancelled); a `sat` counts only if nobody else sides
+			// with `unsat` (cvc5 1.0 has answered sat wrongly before: two against one decides)
+			type conf struct {
+				name string
+				res  solveResult
+			}
+			ctx, cancel := context.WithCancel(context.Background())
+			ch := make(chan conf, len(solverBins))
+			n := 0
+			var tmp []string
 			for _, s := range solverBins {
 				if strings.HasPrefix(r.solver, s.name) {
 					continue
@@ -455,19 +465,27 @@ func (p *Program) runPipeline(cfg *SolverCfg, tasks []Task) ([]*Oblig, []*Unit) 
 					data, _ := os.ReadFile(f)
 					os.WriteFile(f2, []byte(strings.Replace(string(data), "(set-option :produce-models true)\n", "(set-option :produce-models true)\n(set-logic ALL)\n", 1)), 0o644)
 					f = f2
-					defer os.Remove(f2)
+					tmp = append(tmp, f2)
 				}
-				r2 := runSolver(context.Background(), s.name, s.bin, c.FullTimeout, f)
-				if r2.status == "sat" {
-					satBy = s.name
-					satOut = r2.out
-					continue // ask the remaining solver: two against one decides (cvc5 1.0 has answered sat wrongly before)
-				}
-				if r2.status == "unsat" {
-					r.solver += "+" + s.name
+				n++
+				go func(name, bin, file string) {
+					ch <- conf{name, runSolver(ctx, name, bin, c.FullTimeout, file)}
+				}(s.name, s.bin, f)
+			}
+			satBy, satOut, confirmed := "", "", false
+			for k := 0; k < n; k++ {
+				cr := <-ch
+				if cr.res.status == "unsat" && !confirmed {
+					r.solver += "+" + cr.name
 					confirmed = true
-					break
+					cancel()
+				} else if cr.res.status == "sat" && !confirmed {
+					satBy, satOut = cr.name, cr.res.out
 				}
+			}
+			cancel()
+			for _, f2 := range tmp {
+				os.Remove(f2)
 			}
 			if satBy != "" && !confirmed {
 				r.status = "disagree"
